@@ -407,7 +407,11 @@ static const char* kSeedDocs[] = {
     "[]", "[1]", "{}", "{\"one\":1}", "[1,2.5e-3,\"x\\n\\u00e9\"]", "{\"a\":[1,{\"b\":null}],\"c\":{}}", "5e-1", "25e-1", "1E+2", "-0", "-0.0e-0",
     "\"\\/\\b\\f\\r\\u0000\\u00FF\\u00ff\"", "[null,true,false]", "{\"k\":{\"k\":[[]]}}", "[ 1 , 2 ]", " \"a\" ", "\t[\n]\r", "{ \"a\" : 1 , \"b\" : 2 }",
     "9223372036854775807", "-9223372036854775808", "12345678901234567890.5", "1e300", "[[],{}]", "[\"a\",\"b\"]", "{\"\":0}", "[0.1,0.25E+1]",
-    "[true]", "[1e2,1e-2]", "{\"a\":\"//\"}", "[\"0x10\"]", "123e20", "[-1,-1.0]"};
+    "[true]", "[1e2,1e-2]", "{\"a\":\"//\"}", "[\"0x10\"]", "123e20", "[-1,-1.0]", "[1e300,10e18]", "{\"a\":[],\"b\":{}}"};
+
+// texts that are NOT standard documents (documented extensions, near misses): bases for the edit enumeration only
+static const char* kExtraEditSeeds[] = {"{1:2}", "[1,]", "{\"one\":1,}", "0x123", "-0xC8E", "[n,t,f]", "// c\nnull", "[\n// c\n]", "false // c", "{} x", "\"\\x41\"",
+    "{[]:1}", "{null:0}", "-", "+5", "007", "1.", "[1 2]", "{\"a\" 1}", "nul", "[\"a\":1]"};
 
 static void enum_edit(Enum& e) {
   uint64_t idx = 0;
@@ -416,7 +420,12 @@ static void enum_edit(Enum& e) {
     if (!e.mine(idx++)) continue;
     e.exec(Case("edit").S(kSeedDocs[k]));
   }
-  e.complete(cat("every proper prefix and every single-byte delete/replace/insert over ", c5::edit_alphabet().size(), " structural bytes of ", n, " fixed documents (JSONTest literals, every construct)"));
+  size_t m = sizeof(kExtraEditSeeds) / sizeof(kExtraEditSeeds[0]);
+  for (size_t k = 0; k < m && !e.stop; k++) {
+    if (!e.mine(idx++)) continue;
+    e.exec(Case("edit").S(kExtraEditSeeds[k]));
+  }
+  e.complete(cat("every proper prefix and every single-byte delete/replace/insert over ", c5::edit_alphabet().size(), " structural bytes of ", n, " fixed documents (JSONTest literals, every construct) and ", m, " fixed non-standard texts (extensions, near misses)"));
 }
 
 static void enum_doc(Enum& e) {
@@ -450,8 +459,8 @@ static void enum_doc(Enum& e) {
 
 int main(int argc, char** argv) {
   std::vector<SubCheck> checks;
-  checks.push_back({"doc", run_doc, gen_doc, 24000, 800000, 100, enum_doc});
+  checks.push_back({"doc", run_doc, gen_doc, 24000, 480000, 100, enum_doc});
   checks.push_back({"ext", run_ext, gen_ext, 12000, 300000, 100, nullptr});
-  checks.push_back({"edit", run_edit, gen_edit, 480, 12000, 100, enum_edit});
+  checks.push_back({"edit", run_edit, gen_edit, 480, 8000, 100, enum_edit});
   return main_(argc, argv, checks);
 }
